@@ -25,9 +25,19 @@ use vcommon::sched::run_one;
 use vcommon::{Ctx, Leg};
 
 fn factory(cfg: &Cfg, log: Arc<TruthLog>) -> swimos_api::agent::BoxAgent {
-    let prog: Program = serde_json::from_str(&cfg.extra).unwrap_or_else(|_| Program::empty());
-    let lifecycle = C6Lifecycle { log, prog: Arc::new(prog) };
-    Box::new(AgentModel::new(C6Agent::default, lifecycle.into_lifecycle()))
+    // the marker `INITDYN:` in front of the program selects the lifecycle that also asks for a
+    // dynamic lane from on_init
+    let (init_dyn, text) = match cfg.extra.strip_prefix(refint::INITDYN) {
+        Some(t) => (true, t),
+        None => (false, cfg.extra.as_str()),
+    };
+    let prog: Program = serde_json::from_str(text).unwrap_or_else(|_| Program::empty());
+    let lifecycle = C6Lifecycle { log: log.clone(), prog: Arc::new(prog) };
+    if init_dyn {
+        Box::new(AgentModel::new(C6Agent::default, agent::InitDyn { inner: lifecycle.into_lifecycle(), log }))
+    } else {
+        Box::new(AgentModel::new(C6Agent::default, lifecycle.into_lifecycle()))
+    }
 }
 
 /// Script variants: 1 = one command to lane c; 2 = two commands to lane c; 3 = a command to c,
@@ -41,8 +51,14 @@ fn cfg_for(p: &Program, variant: usize) -> Cfg {
     };
     let mut c = Cfg::basic(script, 1);
     c.extra = serde_json::to_string(p).unwrap();
+    if INIT_DYN.load(std::sync::atomic::Ordering::Relaxed) {
+        c.extra = format!("{}{}", refint::INITDYN, c.extra);
+    }
     c
 }
+
+/// While set, `cfg_for` selects the lifecycle that also requests a dynamic lane from on_init.
+static INIT_DYN: std::sync::atomic::AtomicBool = std::sync::atomic::AtomicBool::new(false);
 
 #[derive(Default)]
 struct ChunkOut {
@@ -570,6 +586,15 @@ fn main() {
             E4Spec { name: "e4-command-cascades", min_size: 0, max_size_1: 5, max_size_2: 5, wall_cap_s: 330.0, with_start_stop: false }
         });
         run_e4_nested(&ctx, if quick { 20.0 } else { 120.0 });
+        // E4 (a'): the same space (smaller bound) with a lifecycle that also requests a dynamic
+        // lane from on_init: its callback is a handler that must not run before on_start is over
+        INIT_DYN.store(true, std::sync::atomic::Ordering::Relaxed);
+        run_e4(&ctx, if quick {
+            E4Spec { name: "e4-init-dyn-lane", min_size: 0, max_size_1: 2, max_size_2: 0, wall_cap_s: 15.0, with_start_stop: true }
+        } else {
+            E4Spec { name: "e4-init-dyn-lane", min_size: 0, max_size_1: 3, max_size_2: 3, wall_cap_s: 120.0, with_start_stop: true }
+        });
+        INIT_DYN.store(false, std::sync::atomic::Ordering::Relaxed);
         if !quick {
             // the next size as far as the wall budget allows (reported as not exhaustive when capped)
             run_e4(&ctx, E4Spec { name: "e4-command-cascades-size6", min_size: 6, max_size_1: 6, max_size_2: 0, wall_cap_s: 240.0, with_start_stop: false });
